@@ -132,6 +132,9 @@ def model_requests(L, e, pool_exports):
                    "_cast_integers": cast})
     if "issam_op" in m:
         rq.append({"op": m["issam_op"], "program": e})
+    if m.get("reset"):
+        # last request: the text after [pool0] and an explicit `_reset_state()` (plugin key `<lang>_after_reset`)
+        rq.append({"op": m["op"], "program": e, "package": "src.pkg", "history": [pool_exports[0]], "reset": True})
     return rq
 
 
@@ -170,6 +173,11 @@ def model_judge(L, rq, ans, c11):
             mstate["stack_len"] = len(ma["state"].get("_nodes_stack", []))
             if mstate != rs:
                 out.append(("visit-state", {"init": real["init"], "real": rs, "model": mstate}))
+    if m.get("reset") and c11.get(L + "_after_reset") is not None:
+        if ans[-1]["r"] != c11[L + "_after_reset"]:
+            out.append(("text-after-reset", c11_plugin.first_diff(c11[L + "_after_reset"], ans[-1]["r"])))
+        if c11[L + "_after_reset"] != text:
+            out.append(("real-text-after-reset-differs-from-fresh", c11_plugin.first_diff(text, c11[L + "_after_reset"])))
     if "issam_op" in m and "is_sam" in c11:
         if ans[3 + len(VISIT_STATES)]["r"] != c11["is_sam"]:
             out.append(("is_sam", {"real": c11["is_sam"][:8], "model": ans[3 + len(VISIT_STATES)]["r"][:8]}))
@@ -203,6 +211,82 @@ def witness_block_super(run):
                        "model": model, "note": "the witness of the counterexample theorem behaves differently on "
                                                "the real code (expected ident 0 after the visit)"},
                       signature="witness:visit_restores_counterexample", no_input=True)
+
+
+def witness_scala(run):
+    """Scala: (a) the witness of `Scala.visit_restores_counterexample` (a block with a super-class instantiation
+    among its statements, visited at ident = 4, leaves ident = 0) on the real ScalaTranslator and in the model;
+    (b) the program `demo` of Props/C11Scala.lean built with the real classes: real text = model text = the text
+    the Lean `example` proves"""
+    pipeline.setup()
+    from src.translators.scala import ScalaTranslator
+    from src.ir import ast, scala_types as sc, types as tp
+    import export_ast
+    blk = ast.Block([ast.SuperClassInstantiation(sc.Any, None)], is_func_block=False)
+    tr = ScalaTranslator("src.pkg", {})
+    tr.ident = 4
+    tr.visit(blk)
+    real = {"ident": tr.ident, "text": tr._children_res[-1]}
+    e = export_ast.Exporter()
+    prog = {"lang": "scala", "decls": [e.node(blk)], "context": []}
+    prog["tt"] = e.tt.entries
+    # (b)
+    v = ast.Variable("v")
+    decls = [
+        ast.ClassDeclaration("B", [], ast.ClassDeclaration.REGULAR,
+                             fields=[ast.FieldDeclaration("x", sc.Integer, is_final=True, can_override=True)],
+                             functions=[], is_final=False, type_parameters=[]),
+        ast.ClassDeclaration("A", [ast.SuperClassInstantiation(tp.SimpleClassifier("B", []),
+                                                               [ast.IntegerConstant(1, sc.Integer)])],
+                             ast.ClassDeclaration.REGULAR,
+                             fields=[ast.FieldDeclaration("x", sc.Integer, is_final=True, can_override=False,
+                                                          override=True)],
+                             functions=[ast.FunctionDeclaration(
+                                 "f", [ast.ParameterDeclaration("a", sc.Integer)], sc.Long,
+                                 ast.IntegerConstant(-2, sc.Long), ast.FunctionDeclaration.CLASS_METHOD,
+                                 is_final=True, override=False, type_parameters=[])],
+                             is_final=True, type_parameters=[tp.TypeParameter("T", tp.Covariant)]),
+        ast.FunctionDeclaration(
+            "g", [], sc.Unit,
+            ast.Block([ast.VariableDeclaration("v", ast.IntegerConstant(3, sc.Long), is_final=True, var_type=None,
+                                               inferred_type=sc.Long),
+                       ast.FunctionReference("f", v, None),
+                       ast.FunctionCall("p.q", [ast.CallArgument(v)], None, type_args=[sc.Integer])],
+                      is_func_block=True),
+            ast.FunctionDeclaration.FUNCTION, is_final=True, override=False, type_parameters=[])]
+    tr2 = ScalaTranslator("src.pkg", {})
+    for d in decls:
+        tr2.visit(d)
+    real_demo = "package src.pkg\n" + "\n\n".join(tr2._children_res)
+    e2 = export_ast.Exporter()
+    demo = {"lang": "scala", "decls": [e2.node(d) for d in decls], "context": []}
+    demo["tt"] = e2.tt.entries
+    a = common.run_driver([{"op": "trans.scala.visit", "program": prog, "ident": 4},
+                           {"op": "trans.scala", "program": demo, "package": "src.pkg"}])
+    for x in a:
+        if "error" in x:
+            raise common.HarnessError("driver: " + x["error"])
+    model = {"ident": a[0]["r"]["state"]["ident"], "text": a[0]["r"]["texts"][0]}
+    run.cov["witness_scala_visit_restores_counterexample"] = {"real": real, "model": model}
+    run.count({"witness": "Scala.visit_restores_counterexample"})
+    if real["ident"] != 0 or model != real:
+        run.violation({"kind": "broken-correspondence", "witness": "Scala.visit_restores_counterexample", "real": real,
+                       "model": model, "note": "the witness of the counterexample theorem behaves differently on "
+                                               "the real code (expected ident 0 after the visit)"},
+                      signature="witness:Scala.visit_restores_counterexample", no_input=True)
+    run.count({"witness": "Scala.demo"})
+    run.cov["witness_scala_demo_text"] = real_demo
+    if not (real_demo == a[1]["r"] == SCALA_DEMO_TEXT):
+        run.violation({"kind": "broken-correspondence", "witness": "Scala.demo", "real": real_demo, "model": a[1]["r"],
+                       "lean_example": SCALA_DEMO_TEXT,
+                       "note": "the program `demo` of Props/C11Scala.lean is printed differently by the real "
+                               "ScalaTranslator, the model, or the text proved in the Lean example"},
+                      signature="witness:Scala.demo", no_input=True)
+
+
+SCALA_DEMO_TEXT = ("package src.pkg\nopen class B(val x: Int)\n\nclass A[+T <: Any](final override val x: Int) extends B(1) {\n"
+                   "final def f(a: Int): Long =\n  -2.toLong\n}\n\ndef g(): Unit =\n{\n  val v = 3.toLong;\n"
+                   "  val _y = v.f _;\n    p`q`[Int](v);\n  }")
 
 
 def witness_finding14(run):
@@ -353,6 +437,8 @@ def check(run):
 
     # witnesses first (corpus)
     witness_block_super(run)
+    if "scala" in MODELS:
+        witness_scala(run)
     witness_finding14(run)
 
     nprog, hist, cap, budget = (40, 5, 100, 100) if quick else (1000, 12, 150, 1500)
@@ -386,6 +472,10 @@ def replay(run, rp):
     if rp.get("witness") == "finding14":
         witness_finding14(run)
         run.cov["rule"] = "replay of the finding-14 class table"
+        return
+    if str(rp.get("witness", "")).startswith("Scala."):
+        witness_scala(run)
+        run.cov["rule"] = "replay of the Scala witnesses"
         return
     if rp.get("witness") == "visit_restores_counterexample":
         witness_block_super(run)
